@@ -71,6 +71,19 @@ PROPS = {
                         "encoding/json round trip of the sync record modelled as identity (json.Marshal/Unmarshal stub)",
                         "the shipped fork table with mainnet heights is not instantiated (27k rows between forks); the code is uniform in the heights"],
     },
+    "C13": {
+        "asserts": ["C13.", "uncaught-panic"],
+        "harnesses": [
+            {"id": "admit", "func": "VerifAdmit", "pkg": NODE, "pkgname": "node", "load": ["./node"],
+             "params": {"quick": {"matrix": 0}, "thorough": {"matrix": 1}},
+             "must_cover": ["must-reject", "must-drop", "must-execute"], "max_witness_replays": 9},
+        ],
+        "wall": {"quick": 300, "thorough": 3000},
+        "bounds": {"quick": "one conversion; (3 sources x all 62 destinations) + (all 62 sources x 3 destinations); height uint32 from the tx activation on, amount/balance < 2^62, rates/averages uint64 incl. 0",
+                   "thorough": "full 62x62 asset matrix"},
+        "assumptions": ["single-transaction batch through applyTransactionBatch (the PEG-destination rule from 2.0 on lives in the holding pass: ValidatePegTx, covered by the holding harness)",
+                        "reject-code priority as documented in node/pegnet/errors.go", "converted output < 2^62 (INV I2)"],
+    },
     "C16": {
         "asserts": ["C16.", "uncaught-panic"],
         "harnesses": [
